@@ -135,3 +135,6 @@ Definition run_tick (conns : list conn) (comps : list comp) (tk : tick) : list Z
 
 Definition check (c : case) : list Z :=
   let '(conns, comps, ticks) := c in flat_map (run_tick conns comps) ticks.
+
+(* ---------- traces of one tick: what the ticker dispatched and what the components answered *)
+Inductive ev := EDispatch (a : action) | EAnswer (c : comp) (ch : changes).
